@@ -182,10 +182,26 @@ class PassShape:
         prog = ctx.prog
         self.f = f = prog.func(S['pass_'])
         p = f.params
-        if len(p) < 5:
+        if len(p) < 4:
             from sa.model import AnalysisError
-            raise AnalysisError(f"{f.qual}: expected parameters (self, task, bound, ledger, memo)")
-        self.task, self.bound, self.usage, self.memo = p[1], p[2], p[3], p[4]
+            raise AnalysisError(f"{f.qual}: expected parameters (self, task, bound, ledger[, memo])")
+        self.task, self.bound, self.usage = p[1], p[2], p[3]
+        # the memo: `if task.id in <memo>: return` opens the pass; <memo> is the 5th parameter or (wrongly) scheduler state
+        self.memo = p[4] if len(p) > 4 else None
+        self.memo_on_self = None
+        first = [s_ for s_ in f.body if not (isinstance(s_, ast.Expr) and isinstance(s_.value, ast.Constant))][:1]
+        if first and isinstance(first[0], ast.If):
+            m = match(f"{self.task}.id in $m", first[0].test)
+            if m:
+                mt = src(m['m'])
+                if isinstance(m['m'], ast.Attribute) and isinstance(m['m'].value, ast.Name) and m['m'].value.id == p[0]:
+                    self.memo_on_self = m['m'].attr
+                    self.memo = mt
+                elif self.memo is None:
+                    self.memo = mt
+        if self.memo is None:
+            from sa.model import AnalysisError
+            raise AnalysisError(f"{f.qual}: no memo (`if task.id in <memo>: return`) found")
         self.ex = Expander(prog, f, ctx.typer)
         self.fl = flow_of(f)
         self.cfg = cfg_of(f)
@@ -361,3 +377,26 @@ class PassShape:
                     classify_seq(a, ctxvars)
                 res['defs'].append(n)
         return res
+
+
+def memo_is_local(ctx, o, S):
+    """the memo of the recursive pass is a container allocated by calc for this call, handed down as an argument"""
+    ps = PassShape(ctx, S)
+    calc = ctx.prog.func(S['calc'])
+    if ps.memo_on_self:
+        o.refute(ps.f, ps.f.body[0], f"memo self.{unmangle(ps.memo_on_self)}",
+                 f"the memo of scheduled task ids lives on the scheduler object (self.{unmangle(ps.memo_on_self)}): a second calc() on the same "
+                 f"scheduler skips every task id it has seen - those tasks and their summaries get no dates and no roll-ups")
+        return
+    ex = Expander(ctx.prog, calc, ctx.typer, inline=False)
+    idx = ps.f.params.index(ps.memo) - 1 if ps.memo in ps.f.params else None
+    calls = [c for c in facts.calls_named(calc, ps.pname)]
+    if idx is None or not calls:
+        o.undecided(calc, calc.node, 'memo', "memo argument not found at the call of the pass")
+        return
+    for c in calls:
+        a = ex.expand(c.args[idx]) if len(c.args) > idx else None
+        if a is not None and (match("[]", a) or match("list()", a) or match("set()", a)):
+            o.site(calc, c, "memo allocated by this calc call")
+        else:
+            o.refute(calc, c, c, f"the memo handed to the pass is `{src(a) if a is not None else '?'}`, not a container allocated by this call")
